@@ -6,7 +6,12 @@
 //!   c10_containers record <seed> <max_fonts> <trace.ndjson>
 //!       re-wraps repository fonts as sfnt / TTC (shared tables) / WOFF (real zlib, random
 //!       per-table choices) with the harness's own writers, queries allsorts for every
-//!       member and tag, records digests; judged by Trace_Sfnt.
+//!       member and tag, records digests; judged by Trace_Sfnt. Before the repository fonts come the
+//!       synthesized size-class containers (`record_size_classes`): WOFF files whose tables have
+//!       original and compressed sizes on both sides of the I/O boundaries of an inflating reader
+//!       (1, 32 KiB, 64 KiB, 128 KiB +-1, several hundred KiB), incompressible / semi-compressible /
+//!       highly compressible / window-periodic data, every zlib level, stored raw, hand-made
+//!       stored-block streams; the same tables as bare sfnt and as a collection.
 use allsorts::binary::read::ReadScope;
 use allsorts::font_data::FontData;
 use allsorts::tables::{FontTableProvider, OpenTypeData, SfntVersion};
@@ -172,6 +177,12 @@ fn build_sfnt(tables: &[Vec<u8>], m: &Member, rng: &mut StdRng) -> Vec<u8> {
     w.done()
 }
 
+fn zlib(data: &[u8], level: u32) -> Vec<u8> {
+    let mut e = ZlibEncoder::new(Vec::new(), Compression::new(level));
+    e.write_all(data).unwrap();
+    e.finish().unwrap()
+}
+
 fn build_woff(tables: &[Vec<u8>], m: &Member, rng: &mut StdRng) -> (Vec<u8>, Vec<bool>) {
     // per-table: stored raw, or zlib at a random level (kept only if the stream length differs
     // from the table length, otherwise the entry would read as uncompressed)
@@ -181,10 +192,7 @@ fn build_woff(tables: &[Vec<u8>], m: &Member, rng: &mut StdRng) -> (Vec<u8>, Vec
         let mut z = false;
         let mut s = t.clone();
         if rng.gen_bool(0.7) {
-            let level = rng.gen_range(0..=9);
-            let mut e = ZlibEncoder::new(Vec::new(), Compression::new(level));
-            e.write_all(t).unwrap();
-            let c = e.finish().unwrap();
+            let c = zlib(t, rng.gen_range(0..=9));
             if c.len() != t.len() {
                 s = c;
                 z = true;
@@ -193,10 +201,15 @@ fn build_woff(tables: &[Vec<u8>], m: &Member, rng: &mut StdRng) -> (Vec<u8>, Vec
         stored.push(s);
         zipped.push(z);
     }
+    (build_woff_stored(tables, &stored, m, rng), zipped)
+}
+
+/// WOFF file around given stored forms (`stored[t]` is `tables[t]` itself or a zlib stream of it).
+fn build_woff_stored(tables: &[Vec<u8>], stored: &[Vec<u8>], m: &Member, rng: &mut StdRng) -> Vec<u8> {
     let mut order: Vec<usize> = (0..tables.len()).collect();
     order.shuffle(rng);
     let hdr = 44 + 20 * m.dir.len();
-    let (at, bodies) = lay_bodies(&stored, &order, hdr, rng);
+    let (at, bodies) = lay_bodies(stored, &order, hdr, rng);
     let mut w = W::new();
     w.tag("wOFF").u32(m.flavor).u32((hdr + bodies.len()) as u32).u16(m.dir.len() as u16).u16(0);
     w.u32(0).u16(1).u16(0).u32(0).u32(0).u32(0).u32(0).u32(0);
@@ -204,7 +217,7 @@ fn build_woff(tables: &[Vec<u8>], m: &Member, rng: &mut StdRng) -> (Vec<u8>, Vec
         w.u32(*tag).u32(at[*tid] as u32).u32(stored[*tid].len() as u32).u32(tables[*tid].len() as u32).u32(0);
     }
     w.bytes(&bodies);
-    (w.done(), zipped)
+    w.done()
 }
 
 /// Independent WOFF 1 reader: (flavor, [(tag, content)]).
@@ -263,9 +276,10 @@ fn record_container(rec: &mut Rec, case: &str, kind: &str, bytes: &[u8], tables:
         Outcome::Panicked(m) => json!({"ok": false, "kind": format!("Panic: {}", m)}),
     };
     rec.ev(case, "Load", json!({}), lk);
-    let fd = match ReadScope::new(bytes).read::<FontData<'_>>() {
-        Ok(fd) => fd,
-        Err(_) => return,
+    // (a panic while loading is already on record in the Load event)
+    let fd = match guarded(|| ReadScope::new(bytes).read::<FontData<'_>>()) {
+        Outcome::Returned(Ok(fd)) => fd,
+        _ => return,
     };
     let mut all_tags: Vec<u32> = members.iter().flat_map(|m| m.dir.iter().map(|d| d.0)).collect();
     all_tags.sort();
@@ -302,9 +316,296 @@ fn record_container(rec: &mut Rec, case: &str, kind: &str, bytes: &[u8], tables:
     }
 }
 
+// ---- size classes: tables on both sides of the I/O boundaries of an inflating reader -------------
+
+fn adler32(d: &[u8]) -> u32 {
+    let (mut a, mut b) = (1u32, 0u32);
+    for &x in d {
+        a = (a + x as u32) % 65521;
+        b = (b + a) % 65521;
+    }
+    (b << 16) | a
+}
+
+/// A zlib stream made of stored deflate blocks of at most `block` bytes, written by hand (no encoder
+/// involved): its length is 2 + 5 * blocks + data + 4 exactly.
+fn own_stored(data: &[u8], block: usize) -> Vec<u8> {
+    let mut out = vec![0x78, 0x01];
+    let chunks: Vec<&[u8]> = if data.is_empty() { vec![&data[0..0]] } else { data.chunks(block.min(65535)).collect() };
+    for (k, c) in chunks.iter().enumerate() {
+        out.push(if k + 1 == chunks.len() { 1 } else { 0 });
+        let n = c.len() as u16;
+        out.extend_from_slice(&n.to_le_bytes());
+        out.extend_from_slice(&(!n).to_le_bytes());
+        out.extend_from_slice(c);
+    }
+    out.extend_from_slice(&adler32(data).to_be_bytes());
+    out
+}
+
+/// Data length whose `own_stored` stream with blocks of `block` bytes is exactly `target` bytes long.
+fn blocks_n(target: usize, block: usize) -> usize {
+    for nb in 1..target {
+        let n = target - 6 - 5 * nb;
+        if (n + block - 1) / block == nb {
+            return n;
+        }
+    }
+    unreachable!()
+}
+
+fn data_rand(rng: &mut StdRng, n: usize) -> Vec<u8> {
+    let mut v = vec![0u8; n];
+    rng.fill(&mut v[..]);
+    v
+}
+
+/// Semi-compressible data: a stream of words drawn from a small random dictionary (about 2:1).
+fn data_text(rng: &mut StdRng, n: usize) -> Vec<u8> {
+    let words: Vec<Vec<u8>> = (0..600).map(|_| { let l = rng.gen_range(2..9); data_rand(rng, l) }).collect();
+    let mut v = Vec::with_capacity(n + 8);
+    while v.len() < n {
+        v.extend_from_slice(&words[rng.gen_range(0..words.len())]);
+        if rng.gen_bool(0.2) {
+            v.push(rng.gen());
+        }
+    }
+    v.truncate(n);
+    v
+}
+
+/// A random block of `p` bytes repeated up to `n` bytes (matches at distance `p`: 32768 is the largest
+/// distance a deflate stream can express, 32769 is just outside the window).
+fn data_period(rng: &mut StdRng, p: usize, n: usize) -> Vec<u8> {
+    let blockv = data_rand(rng, p);
+    (0..n).map(|k| blockv[k % p]).collect()
+}
+
+struct SynTable {
+    data: Vec<u8>,
+    stored: Vec<u8>,
+    kind: String, // what the data is
+    how: String,  // "raw" | "zlib-<level>" | "blocks-<size>"
+}
+
+fn syn(kind: &str, data: Vec<u8>, how: &str) -> SynTable {
+    let stored = if how == "raw" {
+        data.clone()
+    } else if let Some(l) = how.strip_prefix("zlib-") {
+        zlib(&data, l.parse().unwrap())
+    } else if let Some(b) = how.strip_prefix("blocks-") {
+        own_stored(&data, b.parse().unwrap())
+    } else {
+        unreachable!()
+    };
+    // a stream exactly as long as the table would read as an uncompressed entry: store such a table raw
+    if stored.len() == data.len() && how != "raw" {
+        return SynTable { stored: data.clone(), data, kind: kind.to_string(), how: "raw".to_string() };
+    }
+    SynTable { data, stored, kind: kind.to_string(), how: how.to_string() }
+}
+
+/// Binary search for a length n with |zlib(make(n))| <= target < |zlib(make(n + 1))| (the invariant
+/// of the search holds at both ends whether or not the compressed size is monotone in n).
+fn search_boundary(make: &dyn Fn(usize) -> Vec<u8>, level: u32, target: usize, mut hi: usize) -> usize {
+    let mut lo = 0usize;
+    assert!(zlib(&make(lo), level).len() <= target);
+    while zlib(&make(hi), level).len() <= target {
+        hi *= 2;
+    }
+    while hi - lo > 1 {
+        let mid = (lo + hi) / 2;
+        if zlib(&make(mid), level).len() <= target {
+            lo = mid;
+        } else {
+            hi = mid;
+        }
+    }
+    lo
+}
+
+fn size_class(n: usize) -> String {
+    const EXACT: [usize; 13] = [0, 1, 32767, 32768, 32769, 65535, 65536, 65537, 131071, 131072, 131073, 262144, 262145];
+    if EXACT.contains(&n) {
+        return format!("={}", n);
+    }
+    for (k, &e) in EXACT.iter().enumerate() {
+        if n < e {
+            return format!("={}..{}", EXACT[k - 1] + 1, e - 1);
+        }
+    }
+    ">=262146".to_string()
+}
+
+type Classes = std::collections::BTreeMap<String, usize>;
+
+fn count_classes(classes: &mut Classes, wrap: &str, t: &SynTable) {
+    let mut add = |c: String| *classes.entry(c).or_default() += 1;
+    let (orig, comp) = (t.data.len(), t.stored.len());
+    add(format!("{}:orig{}", wrap, size_class(orig)));
+    add(format!("{}:data:{}", wrap, t.kind));
+    if wrap != "woff" {
+        return;
+    }
+    add(format!("woff:how:{}", t.how));
+    if t.how == "raw" {
+        return;
+    }
+    add(format!("woff:comp{}", size_class(comp)));
+    add(format!("woff:{}", if comp < orig { "comp<orig" } else { "comp>orig" }));
+    for b in [32768usize, 65536] {
+        let side = if comp <= b { "<=" } else { ">" };
+        add(format!("woff:how:{}:comp{}{}", t.how, side, b));
+        if comp < orig {
+            add(format!("woff:comp<orig:comp{}{}", side, b));
+        }
+        add(format!("woff:data:{}:comp{}{}", t.kind, side, b));
+    }
+}
+
+fn syn_tag(family: usize, k: usize) -> u32 {
+    u32::from_be_bytes([b'a' + family as u8, b'0' + (k / 100) as u8, b'0' + (k / 10 % 10) as u8, b'0' + (k % 10) as u8])
+}
+
+fn record_syn_woff(rec: &mut Rec, classes: &mut Classes, family: usize, name: &str, ts: &[SynTable], rng: &mut StdRng) {
+    let tables: Vec<Vec<u8>> = ts.iter().map(|t| t.data.clone()).collect();
+    let stored: Vec<Vec<u8>> = ts.iter().map(|t| t.stored.clone()).collect();
+    let mut dir: Vec<(u32, usize)> = (0..ts.len()).map(|k| (syn_tag(family, k), k)).collect();
+    dir.shuffle(rng);
+    let m = Member { flavor: [0x00010000u32, 0x4F54544F, 0x74727565][family % 3], dir };
+    let b = build_woff_stored(&tables, &stored, &m, rng);
+    let info: Vec<Value> = ts
+        .iter()
+        .enumerate()
+        .map(|(k, t)| json!({"tag": b4(syn_tag(family, k)), "data": t.kind, "how": t.how, "orig": t.data.len(), "comp": t.stored.len()}))
+        .collect();
+    for t in ts {
+        count_classes(classes, "woff", t);
+    }
+    record_container(rec, &format!("syn-{}/woff", name), "woff", &b, &tables, &[m], json!({"source": "synthesized", "tables": info}));
+}
+
+/// Synthesized containers whose tables sit on both sides of the boundaries an inflating reader has
+/// (its input buffer, its output buffer, the deflate window, the stored-block limit).  Everything here
+/// is decided by the harness (sizes, data, levels); the counters returned describe these inputs only.
+fn record_size_classes(rec: &mut Rec, seed: u64) -> Classes {
+    let mut rng = StdRng::seed_from_u64(seed ^ 0x5157_C1A5);
+    let mut classes = Classes::new();
+    let rbuf = data_rand(&mut rng, 300_000);
+    let tbuf = data_text(&mut rng, 1_400_000);
+
+    // family 0 "exact": incompressible head + run of zeros, real deflate, compressed size searched to land on
+    // the boundary and one past it (valid WOFF: the stream is shorter than the table)
+    let mut ts = Vec::new();
+    for (k, &target) in [32767usize, 32768, 65535, 65536, 131071, 131072, 262144].iter().enumerate() {
+        let level = 1 + (k as u32 * 4 + (seed % 9) as u32) % 9;
+        let make = |n: usize| -> Vec<u8> {
+            let mut v = rbuf[..n].to_vec();
+            v.extend(std::iter::repeat(0u8).take(9000));
+            v
+        };
+        let n = search_boundary(&make, level, target, target);
+        ts.push(syn("rand+zeros", make(n), &format!("zlib-{}", level)));
+        ts.push(syn("rand+zeros", make(n + 1), &format!("zlib-{}", level)));
+    }
+    record_syn_woff(rec, &mut classes, 0, "exact", &ts, &mut rng);
+
+    // family 1 "blocks": hand-made stored-block streams, compressed size exact by construction
+    let mut ts = Vec::new();
+    for target in [32767usize, 32768, 32769, 65535, 65536, 65537] {
+        ts.push(syn("rand", rbuf[..target - 11].to_vec(), "blocks-65535"));
+    }
+    ts.push(syn("rand", rbuf[..blocks_n(131072, 65535)].to_vec(), "blocks-65535"));
+    ts.push(syn("rand", rbuf[..blocks_n(131073, 65535)].to_vec(), "blocks-65535"));
+    ts.push(syn("rand", rbuf[..blocks_n(262144, 32768)].to_vec(), "blocks-32768"));
+    ts.push(syn("rand", rbuf[..blocks_n(262145, 4096)].to_vec(), "blocks-4096"));
+    ts.push(syn("rand", rbuf[..65535].to_vec(), "blocks-65535")); // one full block
+    ts.push(syn("rand", rbuf[..65536].to_vec(), "blocks-65535")); // full block + one byte
+    ts.push(syn("text", tbuf[..7000].to_vec(), "blocks-1")); // 7000 one-byte blocks, 42006 bytes of stream
+    ts.push(syn("text", tbuf[..98304].to_vec(), "blocks-32768"));
+    ts.push(syn("empty", Vec::new(), "blocks-1")); // 11 bytes for nothing
+    ts.push(syn("rand", rbuf[..1].to_vec(), "blocks-1"));
+    record_syn_woff(rec, &mut classes, 1, "blocks", &ts, &mut rng);
+
+    // family 2 "levels": every zlib level, semi-compressible data, stream just below / above 32 KiB
+    // (level 0 = the encoder's own stored blocks), and above 64 KiB for three levels
+    let mut ts = Vec::new();
+    for level in 0..=9u32 {
+        let make = |n: usize| tbuf[..n].to_vec();
+        let n = search_boundary(&make, level, 32768, 100_000);
+        ts.push(syn("text", make(n), &format!("zlib-{}", level)));
+        ts.push(syn("text", make(n + 1), &format!("zlib-{}", level)));
+        if level % 4 == 1 {
+            let n = search_boundary(&make, level, 65536, 200_000);
+            ts.push(syn("text", make(n), &format!("zlib-{}", level)));
+            ts.push(syn("text", make(n + 1), &format!("zlib-{}", level)));
+        }
+    }
+    record_syn_woff(rec, &mut classes, 2, "levels", &ts, &mut rng);
+
+    // family 3 "orig": original sizes around the boundaries, highly compressible (tiny streams) and raw
+    let mut ts = Vec::new();
+    for (k, &n) in [1usize, 2, 3, 32767, 32768, 32769, 65535, 65536, 65537, 131072, 262144, 262145].iter().enumerate() {
+        let level = (k as u32 + (seed % 10) as u32) % 10;
+        let level = if level == 0 { 6 } else { level };
+        ts.push(syn("period7", data_period(&mut rng, 7, n), &format!("zlib-{}", level)));
+        ts.push(syn("zeros", vec![0u8; n], &format!("zlib-{}", 10 - level)));
+        ts.push(syn("rand", rbuf[..n].to_vec(), "raw"));
+    }
+    ts.push(syn("empty", Vec::new(), "raw"));
+    ts.push(syn("empty", Vec::new(), "zlib-6")); // 8 bytes of stream, no data
+    // a table that is itself a zlib stream, stored raw: must come back verbatim, not inflated
+    ts.push(syn("zlib-stream", zlib(&tbuf[..5000], 6), "raw"));
+    record_syn_woff(rec, &mut classes, 3, "orig", &ts, &mut rng);
+
+    // family 4 "big": several hundred KiB on either side
+    let mut ts = Vec::new();
+    ts.push(syn("text", tbuf[..700_000].to_vec(), "zlib-1"));
+    ts.push(syn("text", tbuf[..1_400_000].to_vec(), "zlib-9"));
+    ts.push(syn("text", tbuf[100_000..500_000].to_vec(), "zlib-6"));
+    let mut v = rbuf[..280_000].to_vec();
+    v.extend(std::iter::repeat(0u8).take(150_000));
+    v.extend_from_slice(&rbuf[..20_000]);
+    ts.push(syn("rand+zeros", v, "zlib-6"));
+    ts.push(syn("zeros", vec![0u8; 1_000_000], "zlib-9"));
+    ts.push(syn("period32768", data_period(&mut rng, 32768, 400_000), "zlib-9"));
+    ts.push(syn("period32768", data_period(&mut rng, 32768, 400_001), "zlib-2"));
+    ts.push(syn("period32769", data_period(&mut rng, 32769, 200_000), "zlib-9"));
+    ts.push(syn("period258", data_period(&mut rng, 258, 300_000), "zlib-5"));
+    ts.push(syn("rand", rbuf[..300_000].to_vec(), "zlib-3")); // incompressible: the stream is longer than the table
+    ts.push(syn("rand", rbuf[..270_000].to_vec(), "zlib-0"));
+    ts.push(syn("rand", rbuf[..300_000].to_vec(), "raw"));
+    ts.push(syn("text", tbuf[..300_000].to_vec(), "raw"));
+    let big: Vec<Vec<u8>> = ts.iter().map(|t| t.data.clone()).collect();
+    record_syn_woff(rec, &mut classes, 4, "big", &ts, &mut rng);
+
+    // the big tables as a bare sfnt and as a collection sharing them (offsets beyond 64 KiB / 1 MiB)
+    for t in &ts {
+        count_classes(&mut classes, "sfnt", t);
+        count_classes(&mut classes, "ttc", t);
+    }
+    let mut dir: Vec<(u32, usize)> = (0..big.len()).map(|k| (syn_tag(5, k), k)).collect();
+    dir.shuffle(&mut rng);
+    let m = Member { flavor: 0x00010000, dir: dir.clone() };
+    let b = build_sfnt(&big, &m, &mut rng);
+    record_container(rec, "syn-big/sfnt", "sfnt", &b, &big, &[m], json!({"source": "synthesized"}));
+    let members: Vec<Member> = (0..3)
+        .map(|j| {
+            let mut d: Vec<(u32, usize)> = dir.iter().cloned().filter(|(_, k)| k % 3 != j).collect();
+            d.shuffle(&mut rng);
+            Member { flavor: [0x4F54544Fu32, 0x00010000, 0x74727565][j], dir: d }
+        })
+        .collect();
+    let b = build_ttc(&big, &members, &mut rng);
+    record_container(rec, "syn-big/ttc", "ttc", &b, &big, &members, json!({"source": "synthesized"}));
+    classes
+}
+
 fn record(seed: u64, max_fonts: usize, out: &str) {
     let mut rng = StdRng::seed_from_u64(seed);
     let mut rec = Rec { w: NdWriter::create(out), i: 0 };
+    let classes = record_size_classes(&mut rec, seed);
+    let syn_events = rec.w.n;
     let mut fonts = repo_fonts();
     fonts.shuffle(&mut rng);
     let mut used = 0;
@@ -374,7 +675,7 @@ fn record(seed: u64, max_fonts: usize, out: &str) {
     }
     let n = rec.w.n;
     rec.w.finish();
-    println!("{}", json!({"events": n, "fonts": used}));
+    println!("{}", json!({"events": n, "fonts": used, "synthesized_events": syn_events, "size_classes": classes}));
 }
 
 fn main() {
